@@ -41,7 +41,7 @@ MUTANTS = [
     ("c06-no-clamp", ["C06"], S + "samplers/smc/base.py",
      "            beta = min(beta, 1.0)\n", "            pass\n"),
     ("c06-cap-off-by-one", ["C06"], S + "samplers/smc/base.py",
-     "max_n_steps is not None and iterations >= max_n_steps", "max_n_steps is not None and iterations > max_n_steps"),
+     "                if beta == 1.0 or (\n                    max_n_steps is not None and iterations >= max_n_steps", "                if beta == 1.0 or (\n                    max_n_steps is not None and iterations > max_n_steps"),
     ("c06-stall", ["C06"], S + "samplers/smc/base.py",
      "                beta_star = beta_max\n", "                beta_star = beta_min\n"),
     ("c06-minstep-ignored", ["C06"], S + "samplers/smc/base.py",
@@ -152,16 +152,16 @@ MUTANTS = [
     ("c12-no-final-checkpoint", ["C12"], S + "samplers/smc/base.py",
      "        maybe_checkpoint(force=True)\n", "        maybe_checkpoint(force=False)\n"),
     ("c12-config-after-sampling", ["C12"], S + "aspire.py",
-     "            with AspireFile(checkpoint_path, \"a\") as h5_file:\n                if checkpoint_save_config:\n                    if \"aspire_config\" in h5_file:\n                        del h5_file[\"aspire_config\"]\n                    self.save_config(\n                        h5_file,\n                        include_sampler_config=True,\n                        include_sample_calls=False,\n                    )\n                    saved_config = True",
-     "            with AspireFile(checkpoint_path, \"a\") as h5_file:\n                if checkpoint_save_config and False:\n                    if \"aspire_config\" in h5_file:\n                        del h5_file[\"aspire_config\"]\n                    self.save_config(\n                        h5_file,\n                        include_sampler_config=True,\n                        include_sample_calls=False,\n                    )\n                    saved_config = True"),
+     "                    del h5_file[\"checkpoint\"]\n                if checkpoint_save_config:\n                    if \"aspire_config\" in h5_file:",
+     "                    del h5_file[\"checkpoint\"]\n                if checkpoint_save_config and False:\n                    if \"aspire_config\" in h5_file:"),
     ("c12-flow-after-sampling", ["C12"], S + "aspire.py",
-     "                    and \"flow\" not in h5_file\n                ):\n                    self.save_flow(h5_file)\n                    saved_flow = True",
-     "                    and \"flow\" not in h5_file\n                    and False\n                ):\n                    self.save_flow(h5_file)\n                    saved_flow = True"),
+     "                if self.flow is not None and not saved_flow:\n                    # The flow in the file must be the one this run samples",
+     "                if self.flow is not None and not saved_flow and False:\n                    # The flow in the file must be the one this run samples"),
     ("c12-stale-sampler-type", ["C12", "C14"], S + "aspire.py",
      "        self._last_sampler_type = sampler\n        # Auto-checkpoint", "        # Auto-checkpoint"),
     ("c12-checkpoint-every-ignored-in-auto", ["C12"], S + "aspire.py",
-     "            checkpoint_every = defaults[\"every\"]\n            checkpoint_save_config = defaults[\"save_config\"]\n        saved_flow",
-     "            checkpoint_save_config = defaults[\"save_config\"]\n        saved_flow"),
+     "            checkpoint_every = defaults[\"every\"]\n            checkpoint_save_config = defaults[\"save_config\"]\n        flow_version",
+     "            checkpoint_save_config = defaults[\"save_config\"]\n        flow_version"),
     # ---- C11
     ("c11-rng-not-restored", ["C11"], S + "samplers/smc/base.py",
      "        if rng_state is not None and hasattr(self.rng, \"bit_generator\"):\n            self.rng.bit_generator.state = rng_state\n", ""),
